@@ -34,9 +34,27 @@ type zz19PeersEnv struct {
 	order    []int // peer index of every last-block request, in arrival order
 	common   []int // peer index of every common-block request
 	nets     []*p2p.Connection
+	// second scenario: the chosen peer shares the own tip and serves an invalid block
+	serveInvalid bool
+	commonID     []byte
+	bad          []*blockchain.Block // per peer: the block it serves after commonID
+	blockReqs    []int               // peer index of every getBlocksFromId request
 }
 
 var zz19P *zz19PeersEnv
+
+// servedOnce: true from the second getBlocksFromId request to peer i on (the peer has nothing after its one block)
+func (e *zz19PeersEnv) servedOnce(i int) bool {
+	e.mu.Lock()
+	defer e.mu.Unlock()
+	n := 0
+	for _, x := range e.blockReqs {
+		if x == i {
+			n++
+		}
+	}
+	return n > 1
+}
 
 func (e *zz19PeersEnv) indexOf(id p2p.PeerID) int {
 	for i, x := range e.ids {
@@ -69,7 +87,28 @@ func zz19PStubCommon(ctx context.Context, conn *p2p.Connection, peerID p2p.PeerI
 	zz19P.mu.Lock()
 	zz19P.common = append(zz19P.common, zz19P.indexOf(peerID))
 	zz19P.mu.Unlock()
+	if zz19P.serveInvalid {
+		return zz19P.commonID, nil
+	}
 	return nil, zz19ErrUnknown
+}
+
+func zz19PStubBlocks(ctx context.Context, conn *p2p.Connection, peerID p2p.PeerID, id []byte) ([]*blockchain.Block, error) {
+	i := zz19P.indexOf(peerID)
+	zz19P.mu.Lock()
+	zz19P.blockReqs = append(zz19P.blockReqs, i)
+	zz19P.mu.Unlock()
+	if i < 0 || !zz19P.serveInvalid {
+		return nil, zz19ErrUnknown
+	}
+	if zz19P.servedOnce(i) {
+		return []*blockchain.Block{}, nil
+	}
+	nb, err := blockchain.NewBlock(zz19P.bad[i].Encode())
+	if err != nil {
+		return nil, err
+	}
+	return []*blockchain.Block{nb}, nil
 }
 
 //zz:opt loop=400 paths=200000 sched=2 race=1 racereport=1 schedule=1 join=1 lockdiscipline=off
@@ -80,11 +119,45 @@ func zz19PStubCommon(ctx context.Context, conn *p2p.Connection, peerID p2p.PeerI
 //zz:stub (*~/pkg/p2p.Peer).ConnectedPeers zz19PStubPeers
 //zz:quick P=2
 //zz:thorough P=3 sched=3
-func zzH_C19_block_sync_peer_selection(t *zzT) {
+func zzH_C19_block_sync_peer_selection(t *zzT) { zz19PeerSelection(t, false) }
+
+// C18 "well-formed traffic within the limits never [leads to penalties]" / C19 for block synchronisation: the
+// blocks are downloaded from the CHOSEN peer, which need not be the peer that announced the block that started
+// the sync. When a downloaded block is statically invalid, the peer that served it is banned — and nobody else,
+// in particular not the announcing peer, whose traffic was well-formed. Same script as above; the chosen peer
+// reports the own tip as common block and serves one block whose signature has 10 bytes.
+//
+//zz:opt loop=400 paths=200000 sched=1 join=1 lockdiscipline=off
+//zz:opt require=invalid-block-served
+//zz:stub ~/pkg/consensus/sync.requestHighestCommonBlock zz19PStubCommon
+//zz:stub ~/pkg/consensus/sync.requestLastBlockHeader zz19PStubLast
+//zz:stub ~/pkg/consensus/sync.requestBlocksFromID zz19PStubBlocks
+//zz:stub (*~/pkg/p2p.Connection).BanPeer zz19StubBan
+//zz:stub (*~/pkg/p2p.Peer).ConnectedPeers zz19PStubPeers
+//zz:stub go.uber.org/ratelimit.New zz19StubLimiter
+//zz:stub context.WithCancel zz19StubWithCancel
+//zz:quick P=2
+//zz:thorough P=3
+func zzH_C18_block_sync_bans_serving_peer(t *zzT) { zz19PeerSelection(t, true) }
+
+//zz:opt loop=400 paths=200000 sched=1 join=1 lockdiscipline=off
+//zz:opt require=invalid-block-served
+//zz:stub ~/pkg/consensus/sync.requestHighestCommonBlock zz19PStubCommon
+//zz:stub ~/pkg/consensus/sync.requestLastBlockHeader zz19PStubLast
+//zz:stub ~/pkg/consensus/sync.requestBlocksFromID zz19PStubBlocks
+//zz:stub (*~/pkg/p2p.Connection).BanPeer zz19StubBan
+//zz:stub (*~/pkg/p2p.Peer).ConnectedPeers zz19PStubPeers
+//zz:stub go.uber.org/ratelimit.New zz19StubLimiter
+//zz:stub context.WithCancel zz19StubWithCancel
+//zz:quick P=2
+//zz:thorough P=3
+func zzH_C19_block_sync_bans_serving_peer(t *zzT) { zz19PeerSelection(t, true) }
+
+func zz19PeerSelection(t *zzT, serveInvalid bool) {
 	const L = 3
 	P := t.Param("P", 2)
 	e := zz19NewEnv(t, L, 1, 0)
-	pe := &zz19PeersEnv{lastReqs: make([]int, P)}
+	pe := &zz19PeersEnv{lastReqs: make([]int, P), serveInvalid: serveInvalid, commonID: e.own[L-1].Header.ID}
 	zz19P = pe
 	for i := 0; i < P; i++ {
 		if i == 2 && t.Bool("third.repeats.second") {
@@ -94,6 +167,21 @@ func zzH_C19_block_sync_peer_selection(t *zzT) {
 		dh := uint32(t.Choice(t.Name("peer.dh", i), 2))
 		dm := uint32(t.Choice(t.Name("peer.dm", i), 2))
 		pe.blocks = append(pe.blocks, zz19Block(uint32(L)+dh, e.own[L-1].Header.ID, byte(0xB0+i), 1+dm, 64))
+	}
+	if serveInvalid {
+		// which of several equally good peers is chosen is random natively (rand.Intn): the scenario needs to
+		// know who serves, so only scripts with a unique best tip are used here
+		for i := 0; i < P; i++ {
+			for j := 0; j < i; j++ {
+				hi, hj := pe.blocks[i].Header, pe.blocks[j].Header
+				if hi.MaxHeightPrevoted == hj.MaxHeightPrevoted && hi.Height == hj.Height {
+					return
+				}
+			}
+		}
+	}
+	for i := 0; i < P; i++ {
+		pe.bad = append(pe.bad, zz19Block(uint32(L), e.own[L-1].Header.ID, byte(0xD0+i), 1, 10))
 	}
 	var conn *p2p.Connection
 	if t.Symbolic() {
@@ -108,9 +196,26 @@ func zzH_C19_block_sync_peer_selection(t *zzT) {
 				pe.mu.Lock()
 				pe.common = append(pe.common, i)
 				pe.mu.Unlock()
+				if pe.serveInvalid && i >= 0 {
+					w.Write((&GetHighestCommonBlockResponse{ID: pe.commonID}).Encode())
+					return
+				}
 				w.Error(zz19ErrUnknown)
 			})
-			n.RegisterRPCHandler(RPCEndpointGetBlocksFromID, func(w p2p.ResponseWriter, r *p2p.Request) { w.Error(zz19ErrUnknown) })
+			n.RegisterRPCHandler(RPCEndpointGetBlocksFromID, func(w p2p.ResponseWriter, r *p2p.Request) {
+				pe.mu.Lock()
+				pe.blockReqs = append(pe.blockReqs, i)
+				pe.mu.Unlock()
+				if pe.serveInvalid && i >= 0 {
+					if pe.servedOnce(i) {
+						w.Write((&GetBlocksFromIDResponse{Blocks: []*blockchain.Block{}}).Encode())
+						return
+					}
+					w.Write((&GetBlocksFromIDResponse{Blocks: []*blockchain.Block{pe.bad[i]}}).Encode())
+					return
+				}
+				w.Error(zz19ErrUnknown)
+			})
 			n.RegisterRPCHandler(RPCEndpointGetLastBlock, func(w p2p.ResponseWriter, r *p2p.Request) {
 				if i < 0 {
 					w.Error(zz19ErrUnknown)
@@ -158,9 +263,45 @@ func zzH_C19_block_sync_peer_selection(t *zzT) {
 
 	done, serr := s.Sync(ctx)
 
-	t.Assert(serr != nil && !done, "the scripted peers refuse the common-block request: sync fails")
+	t.Assert(serr != nil && !done, "the scripted peers refuse the common-block request / serve an invalid block: sync fails")
 	pe.mu.Lock()
 	defer pe.mu.Unlock()
+	if serveInvalid {
+		if len(pe.common) != 1 || pe.common[0] < 0 || len(pe.blockReqs) < 1 {
+			t.Fail("the chosen peer is asked for the common block and for the blocks that follow it")
+			return
+		}
+		c := pe.common[0]
+		served := true
+		for _, i := range pe.blockReqs {
+			served = served && i == c
+		}
+		t.Assert(served, "blocks are downloaded from the chosen peer only")
+		if t.Symbolic() {
+			onlyServer := len(e.bans) >= 1
+			for _, id := range e.bans {
+				onlyServer = onlyServer && id == pe.ids[c]
+			}
+			t.Assert(onlyServer, "the peer that served the invalid block is banned, and nobody else (not the peer that announced the block)")
+		} else {
+			// natively bans are per IP and every peer is on 127.0.0.1; what tells the peers apart is which
+			// connection BanPeer closed
+			still := conn.ConnectedPeers()
+			onlyServer := true
+			for i := 0; i < P; i++ {
+				connected := false
+				for _, id := range still {
+					connected = connected || id == pe.ids[i]
+				}
+				onlyServer = onlyServer && connected == (i != c)
+			}
+			t.Assert(onlyServer, "the peer that served the invalid block is banned, and nobody else (not the peer that announced the block)")
+		}
+		t.Assert(e.untouched(), "an invalid first downloaded block leaves the own chain untouched")
+		// (which peer is chosen among equally good ones is random natively: one label for both cases)
+		t.Reach("invalid-block-served")
+		return
+	}
 	asked := true
 	for i := 0; i < P; i++ {
 		asked = asked && pe.lastReqs[i] >= 1
